@@ -824,6 +824,8 @@ async fn run_case(tl: bool, ops: &[Op]) -> Vec<String> {
             (_, None, Some(t)) => format!("PostStop@{t}"),
             (ActorStatus::Running, None, None) => "Running".to_string(),
             (ActorStatus::Starting, None, None) => "Starting".to_string(),
+            // `drain()` on a target whose message loop has not begun: it stays `Draining` until it starts
+            (ActorStatus::Draining, None, None) if start_gated => "Draining".to_string(),
             (s, e, _) => format!("{s:?}:{e:?}"),
         };
         let tgt = if tlw.as_ref().map(|w| w.stalled).unwrap_or(false) { format!("{tgt} <tl thread stalled>") } else { tgt };
@@ -999,13 +1001,6 @@ fn gen_case(rng: &mut Rng, st: &mut Stats) -> Vec<Op> {
                 _ => Op::Drain,
             }
         };
-        // `drain()` on a target that is not `Running` yet is out of the model's scope (the status is
-        // overwritten when `post_start` returns)
-        let op = match op {
-            Op::Drain if starting => Op::Stop,
-            Op::AdvDrain(d) if starting => Op::AdvStop(d),
-            o => o,
-        };
         st.bump(op.text().split(' ').next().unwrap());
         ops.push(op);
     }
@@ -1136,6 +1131,12 @@ fn fixed_cases() -> Vec<Vec<Op>> {
         vec![StartHold, Si(2), Drop(0), Sa(3), AdvAbort(2, 1), Adv(2), Started, Adv(2)],
         vec![StartHold, Xsi(2), Dsi(2), Csa(3), Adv(2), Adv(2), Started],
         vec![StartHold, Started, Sa(1), Adv(1)],
+        // drain() on a Starting target: admission closes at the call, the backlog is handled when the loop begins
+        vec![StartHold, Si(3), Sa(1), Drain, Adv(3), Started, Adv(3)],
+        vec![StartHold, Si(3), Adv(3), AdvDrain(1), Sa(1), Adv(2), Started, Adv(1)],
+        vec![StartHold, Sa(1), Adv(1), Drain, Ka(1), Adv(1), Started],
+        vec![StartHold, Sa(1), Adv(1), Drain, Stop, Started],
+        vec![StartHold, Hold, Sa(1), Adv(1), Drain, Started, Adv(1), PsRelease],
         // the target FAILS (handler returns Err): no post_stop, ActorFailed; timers find a dead target
         vec![Sa(5), Fail, Adv(5)],
         vec![Si(3), Adv(3), Fail, Adv(3), Adv(3)],
